@@ -240,6 +240,42 @@ def case_fn(ctx, case):
                           f'config "{name}" context {ctxkinds}: cache key {FLAG_KEY[k]!r} present')
 
 
+def persistence_case(ctx, case):
+    """a flag changed by SET/UNSET_FLAG keeps its value for later instructions of the same body, whatever construct
+    runs in between (each context kind around nothing / a CALL of an empty function / another probe)"""
+    outer, k, instr, emb_off, mid_kind, mid_body = case
+    seed = ctx.seed
+    pr, ro, now = probes(seed)
+    env.Clock.now = now
+    flags = {k: False} if emb_off else {}
+    mids = {'nothing': b'', 'call': op('CALL') + b'\x30', 'probe': pr[FLAG_PROBE[(k + 1) % 10 if k != 9 else 1]]}
+    mid = wrap(mid_kind, mids[mid_body], 5, seed) if mid_kind != 'none' else mids[mid_body]
+    body = op('DEF') + b'\x30' + blk(b'') + op(instr) + b'\x01' + bytes([k]) + mid + pr[FLAG_PROBE[k]]
+    script = build(outer, body, seed)
+    ctx.state(('persist', case))
+    contracts = dict(stepspace.CONTRACTS)
+    env.Rand.reset(b'diff')
+    try:
+        tape, stack, cache = F.run_script(script, dict(ro), contracts=contracts, additional_flags=dict(flags),
+                                          stack_max_items=LIMITS[0], stack_max_item_size=LIMITS[1], callstack_limit=LIMITS[2])
+        impl = (None, stack.list(), cache)
+    except BaseException as e:
+        if isinstance(e, (KeyboardInterrupt, SystemExit, MemoryError)):
+            raise
+        impl = (e, None, None)
+    ref, e = run_ref([script], ro, None, flags, LIMITS, contracts, now)
+    ctx.ran(2)
+    ctx.trans(4)
+    res = judge(impl, ref)
+    if res.verdict == 'unspec':
+        ctx.unspec(res.why)
+        return
+    ctx.outcome('persist:' + res.verdict)
+    if res.verdict == 'viol':
+        ctx.violation({'config': instr + ' persistence', 'between': mid_kind + ':' + mid_body, 'why': res.why},
+                      f'{instr} {k} (embedder off={emb_off}) then {mid_kind}({mid_body}) then probe, inside {outer}: {res.detail[:500]}')
+
+
 def later_script_case(ctx, case):
     """plugins and contracts given to run_auth_scripts govern every script of the list, not only the first"""
     ci, ctxkinds, pos = case
@@ -314,6 +350,12 @@ def blocks(tier, seed):
     return [Block('contexts_x_configurations', cases, case_fn,
                   'every nesting context of depth <= %d over %d kinds (%d contexts) x %d (configuration, probe) pairs'
                   % (depth, len(KINDS), len(cs), ncfg), nshards=128),
+            Block('flag_instruction_persistence',
+                  [(outer, k, instr, emb, mk, mb) for outer in contexts(1) for k in (1, 2, 9) for instr, emb in
+                   (('UNSET_FLAG', False), ('UNSET_FLAG', True), ('SET_FLAG', True))
+                   for mk in ('none',) + KINDS for mb in ('nothing', 'call', 'probe')], persistence_case,
+                  'flag instruction, then every construct kind around {nothing, CALL, other probe}, then the probe in the same body; '
+                  'inside every context of depth <= 1', nshards=64),
             Block('later_scripts_of_run_auth_scripts', later, later_script_case,
                   'plugin / contract configurations x contexts of depth <= %d x probe in script 1, 2 or 3 of a run_auth_scripts list'
                   % (1 if q else 2), nshards=64)]
